@@ -1092,3 +1092,24 @@ func RetVal(r *ssa.Return, i int) ssa.Value {
 	}
 	return v
 }
+
+// FieldPathStores returns the values stored to root.path[0].path[1]… where
+// root is an address (alloc) and the stores go through nested FieldAddr.
+func FieldPathStores(root ssa.Value, path []string) []ssa.Value {
+	if root.Referrers() == nil {
+		return nil
+	}
+	var out []ssa.Value
+	for _, r := range *root.Referrers() {
+		if len(path) == 0 {
+			if st, ok := r.(*ssa.Store); ok && st.Addr == root {
+				out = append(out, st.Val)
+			}
+			continue
+		}
+		if fa, ok := r.(*ssa.FieldAddr); ok && fieldName(fa.X.Type(), fa.Field) == path[0] {
+			out = append(out, FieldPathStores(fa, path[1:])...)
+		}
+	}
+	return out
+}
